@@ -40,18 +40,17 @@ package termscaler
 //@ lemma mono-log10 : forall a: real :: forall b: real :: a <= b ==> (if a <= 1.0 then 0.0 else rlog10(a)) <= (if b <= 1.0 then 0.0 else rlog10(b))
 
 //@ func (Scaler).remapMinMax
-//@   requires min < 4611686018427387904
 //@   pure
-//@   ensures result0 == rfloor(mapf(s.mapVal, real(min))) && result1 == rceil(mapf(s.mapVal, real(if max <= min then min + 1 else max)))
+//@   ensures min < 9223372036854775807 ==> result0 == rfloor(mapf(s.mapVal, real(min))) && result1 == rceil(mapf(s.mapVal, real(if max <= min then min + 1 else max)))
+//@   ensures min == 9223372036854775807 ==> result0 == rfloor(mapf(s.mapVal, real(min - 1))) && result1 == rceil(mapf(s.mapVal, real(min)))
 //@   ensures result0 <= result1
 
 // C14: scaled magnitudes lie in [0,1] (and are monotone in the value: lemma scale-monotone)
 //@ func (Scaler).Scale
-//@   requires min < 4611686018427387904
 //@   pure
 //@   ensures [range] 0.0 <= result && result <= 1.0
 //@   ensures [empty-range] max < min ==> result == 0.0
-//@   ensures [definition] result == scalev(s.mapVal, val, min, max)
+//@   ensures [definition] min < 9223372036854775807 ==> result == scalev(s.mapVal, val, min, max)
 //@ lemma scale-monotone : forall f: int :: forall a: int :: forall b: int :: forall lo: int :: forall hi: int :: a <= b ==> scalev(f, a, lo, hi) <= scalev(f, b, lo, hi)
 
 //@ func Bucket
@@ -63,10 +62,15 @@ package termscaler
 //@   pure
 //@   ensures 0 <= result && result <= maxLen
 //@ func (Scaler).Bucket
-//@   requires buckets >= 1 && buckets <= 1000000 && min < 4611686018427387904
+//@   requires buckets >= 1 && buckets <= 1000000
 //@   pure
 //@   ensures 0 <= result && result <= buckets - 1
 //@ func (Scaler).LengthVal
-//@   requires maxLen >= 0 && maxLen <= 1000000000 && min < 4611686018427387904
+//@   requires maxLen >= 0 && maxLen <= 1000000000
 //@   pure
 //@   ensures 0 <= result && result <= maxLen
+
+//@ func (Scaler).ScaleKeys
+//@   requires buckets >= 0 && buckets <= 1000000
+//@   pure
+//@   loop 1 invariant 0 <= i && (i > 0 ==> len(ret) >= 1) && fresh(ret)
